@@ -729,6 +729,93 @@ def r05_6(rep: Report) -> None:
                      'contains <S d="None"/>, which is not an unsigned integer', c)
 
 
+def r05_7(rep: Report) -> None:
+    """unsigned-integer attributes (`S@d`, `S@t`, `@timescale`, `@duration`, `@startNumber` ..) are
+    rendered from Python values without a formatter, so a float prints as `176800.0`.  The values come
+    from the arithmetic of dashlive/mpeg/dash and dashlive/utils; rule: a function there that is declared
+    to return `int` returns no expression that is *definitely* a float (a `/` division, a float literal,
+    `float(..)`, `.total_seconds()`, a call of a function declared `-> float`, or sums / products /
+    floor divisions with such an operand - `7 // 2.0` is `3.0`).  Flow-insensitive over local names;
+    unknown is not reported."""
+    from ..index import Index
+    rid = 'R05.7'
+    idx = Index(rep.repo, 'dashlive')
+    declared: dict[str, set[str]] = {}
+    for q, f in idx.functions.items():
+        if f.node.returns is not None:
+            declared.setdefault(f.name, set()).add(norm(f.node.returns))
+
+    def infer(e: ast.AST, fn: ast.AST, depth: int = 0) -> str:
+        if depth > 5:
+            return '?'
+        if isinstance(e, ast.Constant):
+            if isinstance(e.value, bool) or (isinstance(e.value, int)):
+                return 'int'
+            return 'float' if isinstance(e.value, float) else '?'
+        if isinstance(e, ast.BinOp):
+            if isinstance(e.op, ast.Div):
+                return 'float'
+            a, b = infer(e.left, fn, depth + 1), infer(e.right, fn, depth + 1)
+            if isinstance(e.op, (ast.Add, ast.Sub, ast.Mult, ast.FloorDiv, ast.Mod)):
+                if 'float' in (a, b):
+                    return 'float'
+                if a == b == 'int':
+                    return 'int'
+            return '?'
+        if isinstance(e, ast.UnaryOp) and isinstance(e.op, (ast.USub, ast.UAdd)):
+            return infer(e.operand, fn, depth + 1)
+        if isinstance(e, ast.Call):
+            name = e.func.id if isinstance(e.func, ast.Name) else (e.func.attr if isinstance(e.func, ast.Attribute) else None)
+            if name in ('int', 'len', 'floor', 'ceil') or (name == 'round' and len(e.args) == 1):
+                return 'int'
+            if name in ('float', 'total_seconds'):
+                return 'float'
+            if name in declared and declared[name] == {'float'}:
+                return 'float'
+            if name in declared and declared[name] == {'int'}:
+                return 'int'
+            return '?'
+        if isinstance(e, ast.IfExp):
+            a, b = infer(e.body, fn, depth + 1), infer(e.orelse, fn, depth + 1)
+            return 'float' if 'float' in (a, b) else (a if a == b else '?')
+        if isinstance(e, ast.Name):
+            ts_: set[str] = set()
+            for n in ast.walk(fn):
+                if isinstance(n, (ast.Assign, ast.AnnAssign)) and getattr(n, 'value', None) is not None:
+                    tg = n.targets[0] if isinstance(n, ast.Assign) else n.target
+                    if isinstance(tg, ast.Name) and tg.id == e.id:
+                        ts_.add(infer(n.value, fn, depth + 1))
+                if isinstance(n, ast.AugAssign) and isinstance(n.target, ast.Name) and n.target.id == e.id:
+                    ts_.add('float' if isinstance(n.op, ast.Div) else infer(n.value, fn, depth + 1))
+            if 'float' in ts_:
+                return 'float'
+            return 'int' if ts_ == {'int'} else '?'
+        return '?'
+    n = 0
+    for q, f in sorted(idx.functions.items()):
+        if not (f.rel.startswith('dashlive/mpeg/dash/') or f.rel.startswith('dashlive/utils/')) \
+                or '/validator/' in f.rel:
+            continue
+        if f.node.returns is None or norm(f.node.returns) != 'int':
+            continue
+        inner = {id(x) for d in ast.walk(f.node) if isinstance(d, (ast.FunctionDef, ast.Lambda)) and d is not f.node
+                 for x in ast.walk(d)}
+        for rt in ast.walk(f.node):
+            if isinstance(rt, ast.Return) and rt.value is not None and id(rt) not in inner:
+                n += 1
+                t = infer(rt.value, f.node)
+                key = f'return {short(rt.value, 50)}'
+                if t == 'float':
+                    rep.fail(rid, f.construct(), key,
+                             f'`{f.name}` is declared to return int and returns the float-valued `{short(rt.value, 70)}`: '
+                             'the value is used in the arithmetic of segment times and durations and rendered without '
+                             'a formatter (`<S d="176800.0">` is not a valid unsignedInt)', rt, file=f.rel)
+                else:
+                    rep.ok(rid, f.construct(), key, f'inferred {t}')
+    if n < 8:
+        raise AnalysisError(f'only {n} returns of int-declared functions found')
+
+
 def analyse(rep: Report) -> None:
     rep.explanation = (
         'Every manifest-side template (9 .mpd, the patch template and the 17 files they include) '
@@ -748,6 +835,7 @@ def analyse(rep: Report) -> None:
     rep.rule('R05.4', 'URL templates use only DASH identifiers', floor=3)
     rep.rule('R05.5', 'URL/query text is escaped exactly once on its way into XML', floor=20)
     rep.rule('R05.6', 'S entries are listed only with a duration (S@d is rendered without a guard)', floor=2)
+    rep.rule('R05.7', 'functions declared to return int return no float-valued expression', floor=8)
     global _INDEX
     from ..index import Index
     _INDEX = Index(rep.repo, 'dashlive/mpeg/dash')
@@ -773,6 +861,7 @@ def analyse(rep: Report) -> None:
     r05_4(rep, ts)
     r05_5(rep, ts, strength)
     r05_6(rep)
+    r05_7(rep)
     rep.assumptions = [
         'Flask autoescapes templates named .html .htm .xml .xhtml .svg and nothing else',
         'field table: which expressions are numeric / fixed vocabulary / file-derived / free text '
